@@ -1,0 +1,61 @@
+//! Verification hooks: thin wrappers that expose crate-private items to the external
+//! verification harness. Compiled only with `--cfg sonic_rs_verif`; adds no behaviour.
+#![allow(missing_docs, clippy::missing_safety_doc)]
+
+use std::mem::MaybeUninit;
+
+pub use crate::parser::verif_hooks as parser;
+pub use crate::util::string::verif_hooks as string;
+pub use crate::util::unicode::verif_hooks as unicode;
+pub use crate::value::node::verif_hooks as node;
+
+/// `reader::Position::from_index`
+pub fn position_from_index(i: usize, data: &[u8]) -> (usize, usize) {
+    let p = crate::reader::Position::from_index(i, data);
+    (p.line, p.column)
+}
+
+/// `Error::syntax` with the `InvalidJsonValue` code: (line, column, offset, display)
+pub fn error_syntax(json: &[u8], index: usize) -> (usize, usize, usize, String) {
+    let e = crate::Error::syntax(crate::error::ErrorCode::InvalidJsonValue, json, index);
+    (e.line(), e.column(), e.offset(), e.to_string())
+}
+
+/// `util::string::format_string` into a caller-provided window
+pub fn format_string(value: &str, dst: &mut [MaybeUninit<u8>], need_quote: bool) -> usize {
+    crate::util::string::format_string(value, dst, need_quote)
+}
+
+/// `util::string::parse_string_inplace` on `buf[start..]` (just after the opening quote).
+/// The buffer must carry the 64 bytes of padding the DOM parser appends.
+/// Returns (decoded length, index after the closing quote) or the error code's message.
+pub fn parse_string_inplace(
+    buf: &mut [u8],
+    start: usize,
+    repr: bool,
+) -> std::result::Result<(usize, usize), String> {
+    unsafe {
+        let base = buf.as_mut_ptr();
+        let mut src = base.add(start);
+        match crate::util::string::parse_string_inplace(&mut src, repr) {
+            Ok(n) => Ok((n, src.offset_from(base) as usize)),
+            Err(code) => Err(format!("{:?}", code)),
+        }
+    }
+}
+
+pub fn prefix_xor(x: u64) -> u64 {
+    unsafe { crate::util::arch::prefix_xor(x) }
+}
+
+pub fn get_nonspace_bits(data: &[u8; 64]) -> u64 {
+    unsafe { crate::util::arch::get_nonspace_bits(data) }
+}
+
+pub fn escaped_tab() -> &'static [u8; 256] {
+    &crate::util::string::ESCAPED_TAB
+}
+
+pub fn quote_tab() -> &'static [(u8, [u8; 8]); 256] {
+    &crate::util::string::QUOTE_TAB
+}
